@@ -198,6 +198,14 @@ def gen_zone(rng, apex=None, cls=None, child_cuts=()):
         else:
             rd = nm
         z.add(owner, ty, rd, ttl=300)
+    if rng.random() < 0.35:
+        # several records with NAMES IN THEIR RDATA in one RRset at `w` / `mx`, where CNAME chains end: the chase then
+        # writes a multi-record MX / SRV RRset whose owner hint is "the name most recently written in RDATA"
+        owner = rng.choice([[b"w"], [b"w"], [b"mx"]])
+        ty = rng.choice([T_MX, T_MX, T_SRV])
+        for j in range(rng.randint(2, 3)):
+            nm = z.name(rng.choice([[b"mx"], [b"ns"], [b"w"], [b"srv"]]))
+            z.add(owner, ty, (u16(1000 + j) + nm) if ty == T_MX else (u16(1000 + j) + u16(5) + u16(443) + nm), ttl=300)
     if rng.random() < 0.15:
         z.add([b"w"], 99, [1, 2, 3], ttl=60)
     if rng.random() < 0.05:
